@@ -119,9 +119,22 @@ def _writer_template(body, what):
     m1 = re.search(r"AsBytes<T>\s+y\(x\);\s*if\s*\((.*?)\)\s*swapBytes\(y\);\s*write\(y\.b,\s*sizeof\(T\)\);\s*return\s+\*this;", b, re.S)
     if m1:
         return _cond(m1.group(1), what)
-    m2 = re.search(r"T\s+y\s*=\s*\((.*?)\)\s*\?\s*bytesSwapped\(x\)\s*:\s*x;\s*write\(&y,\s*sizeof\(x\)\);\s*return\s+\*this;", b, re.S)
-    if m2:
-        return _cond(m2.group(1), what)
+    if re.fullmatch(r"\s*return\s+put_\(x,\s*&x\);\s*", b):
+        # File / Socket since e2ca1c4: dispatch on the argument's address — Array-derived objects to the Array overload,
+        # plain values to the raw path
+        cls = re.search(r"(\w+)::", what).group(1)
+        if not re.search(r"template\s*<\s*class\s+T\s*,\s*class\s+K\s*>\s*%s&\s*put_\(\s*const\s+T&\s*,\s*const\s+Array<K>\*\s*a\s*\)[^{]*\{\s*return\s+\*this\s*<<\s*\*a;\s*\}" % cls, body):
+            raise TranslateError(what + ": put_(const T&, const Array<K>*) missing or not recognised")
+        mp = re.search(r"template\s*<\s*class\s+T\s*>\s*%s&\s*put_\(\s*const\s+T&\s*x\s*,\s*const\s+void\*\s*\)[^{]*\{(.*?)\n\t\}" % cls, body, re.S)
+        if not mp:
+            raise TranslateError(what + ": put_(const T&, const void*) not found")
+        m2 = re.fullmatch(r"\s*T\s+y\s*=\s*\((.*?)\)\s*\?\s*bytesSwapped\(x\)\s*:\s*x;\s*write\(&y,\s*sizeof\(x\)\);\s*return\s+\*this;\s*", mp.group(1), re.S)
+        if m2:
+            return _cond(m2.group(1), what)
+        raise TranslateError(what + ": body of put_(const T&, const void*) not recognised: " + " ".join(mp.group(1).split())[:200])
+    if re.search(r"T\s+y\s*=\s*\((.*?)\)\s*\?\s*bytesSwapped\(x\)\s*:\s*x;\s*write\(&y,\s*sizeof\(x\)\);", b, re.S):
+        raise TranslateError(what + ": the generic operator writes its argument raw without the Array dispatch: an object derived from Array<T> "
+                             "(Stack, Queue, StreamBuffer) would be written as the memory of its handle")
     raise TranslateError(what + ": body of the generic operator<< not recognised: " + " ".join(b.split())[:200])
 
 
@@ -130,9 +143,18 @@ def _reader_template(body, what):
     if not m:
         raise TranslateError(what + ": generic operator>> not found")
     b = m.group(1)
-    m1 = re.search(r"read\(&x,\s*sizeof\(x\)\);\s*if\s*\((.*?)\)\s*swapBytes\(x\);\s*return\s+\*this;", b, re.S)
+    if not re.fullmatch(r"\s*return\s+get_\(x,\s*&x\);\s*", b):
+        raise TranslateError(what + ": the generic operator>> does not dispatch Array-derived objects to operator>>(Array<T>&) (it would read raw bytes over the handle): "
+                             + " ".join(b.split())[:160])
+    cls = re.search(r"(\w+)::", what).group(1)
+    if not re.search(r"template\s*<\s*class\s+T\s*,\s*class\s+K\s*>\s*%s&\s*get_\(\s*T&\s*,\s*Array<K>\*\s*a\s*\)[^{]*\{\s*return\s+\*this\s*>>\s*\*a;\s*\}" % cls, body):
+        raise TranslateError(what + ": get_(T&, Array<K>*) missing or not recognised")
+    mp = re.search(r"template\s*<\s*class\s+T\s*>\s*%s&\s*get_\(\s*T&\s*x\s*,\s*void\*\s*\)[^{]*\{(.*?)\n\t\}" % cls, body, re.S)
+    if not mp:
+        raise TranslateError(what + ": get_(T&, void*) not found")
+    m1 = re.fullmatch(r"\s*read\(&x,\s*sizeof\(x\)\);\s*if\s*\((.*?)\)\s*swapBytes\(x\);\s*return\s+\*this;\s*", mp.group(1), re.S)
     if not m1:
-        raise TranslateError(what + ": body of the generic operator>> not recognised: " + " ".join(b.split())[:200])
+        raise TranslateError(what + ": body of get_(T&, void*) not recognised: " + " ".join(mp.group(1).split())[:200])
     return _cond(m1.group(1), what)
 
 
@@ -489,6 +511,17 @@ def roundtrip_case(rng, kind, nitems, arr_max=100, p_switch=0.2):
                     rl.extend(["r " + ty] * n)
                     total += n * WIDTH[ty]
                 continue
+            if kind != "sb" and rng.random() < 0.2:
+                # an object derived from Array<T>: Stack<T> / Queue<T>
+                cls = rng.choice(["stack", "queue"])
+                n = min(n, 40)
+                wl.append("wd %s %s" % (cls, arr_line(rng, ty, n)[3:]))
+                if rng.random() < 0.5:
+                    rl.append("rd %s %s %d" % (rng.choice(["stack", "queue"]), ty, n))
+                else:
+                    rl.extend(["r " + ty] * n)
+                total += n * WIDTH[ty]
+                continue
             if kind == "sb" and ty != "ch" and rng.random() < 0.25:
                 # a C array T[N] (char[N] is a C string: ops wc / wca)
                 n = rng.randrange(1, 9)
@@ -535,14 +568,16 @@ def roundtrip_case(rng, kind, nitems, arr_max=100, p_switch=0.2):
             total += 4 + len(s)
         else:
             s = rbytes(rng, rng.randrange(0, 40))
-            op = rng.choice(["ws", "wb", "wz", "wc", "wca"])
+            op = rng.choice(["ws", "wb", "wz", "wc", "wca", "wdsb"])
+            if op == "wdsb" and kind == "sb":
+                op = "wb"
             if op == "wca":
                 if kind != "sb":
                     op = "wc"
                 else:
                     s = s[:rng.randrange(0, 16)]
             wl.append("%s %s" % (op, hexs(s)))
-            n = len(s.split(b"\0")[0]) if op in ("wz", "wc", "wca") else len(s)
+            n = len(s.split(b"\0")[0]) if op in ("wz", "wc", "wca") else len(s)   # wb / ws / wdsb: all the bytes
             rl.append("rb %d" % n)
             total += n
     if kind == "sock":
@@ -675,6 +710,15 @@ def special_grid(rng):
                 rd += ["r " + ty] * n
             cases.append(c + rd + ["r u8"])
     for kind in ("file", "sock"):
+        for o in ["def"] + ORDERS:
+            # Stack<T>, Queue<T>, StreamBuffer objects (derived from Array) written and read back (hunt round 4)
+            for ty in TYPES:
+                n = rng.choice([1, 2, 3, 7])
+                c = ["new %s %s" % (kind, o), "wd stack " + arr_line(rng, ty, n)[3:], "wd queue " + arr_line(rng, ty, 2)[3:], "wd stack %s -" % ty,
+                     "wdsb 0000000100020304", "wdsb -", "endian big", "wd queue " + arr_line(rng, ty, n)[3:]]
+                rd = ["reader " + o, "rd queue %s %d" % (ty, n), "rd stack %s 2" % ty, "rd stack %s 0" % ty, "rb 8", "rendian big", "rd stack %s %d" % (ty, n), "r u8"]
+                cases.append(c + rd)
+    for kind in ("file", "sock"):
         for o in ORDERS:
             # length-prefixed strings with NULs inside read back whole on both classes
             for sv in (b"ab\0cd", b"\0", b"\0\0x", b"abc\0"):
@@ -751,7 +795,8 @@ def extra(ctx):
 
 
 def nontrivial(case):
-    wrote = any(l.startswith(("w ", "wa ", "wcarr ")) and WIDTH.get(l.split()[1], 1) > 1 and l.split()[-1] != "-" for l in case) or \
+    wrote = any(l.startswith("wd ") and WIDTH.get(l.split()[2], 1) > 1 and l.split()[-1] != "-" for l in case) or \
+        any(l.startswith(("w ", "wa ", "wcarr ")) and WIDTH.get(l.split()[1], 1) > 1 and l.split()[-1] != "-" for l in case) or \
         any(l.startswith("av ") and WIDTH.get(l.split()[2], 1) > 1 and l.split()[-1] != "-" for l in case)
     read = any(l.startswith("r ") for l in case)
     return wrote and read
@@ -762,7 +807,7 @@ def distribution(cases):
          "writes_by_order_in_force": {}, "reads_by_order_in_force": {}, "order_switches_mid_stream": 0, "nan_values": 0,
          "min_max_int_values": 0, "values_per_case_hist": {}, "max_values_in_a_case": 0,
          "array_variable_writes": {}, "array_rewrites_same_object": 0, "array_rewrites_after_order_switch": 0,
-         "string_array_writes_by_order": {}, "c_array_writes_by_order": {}, "self_writes": 0, "socket_state_observations": 0, "zero_length_socket_reads": 0, "array_reads_by_order_in_force": {}}
+         "string_array_writes_by_order": {}, "c_array_writes_by_order": {}, "array_derived_object_writes": 0, "self_writes": 0, "socket_state_observations": 0, "zero_length_socket_reads": 0, "array_reads_by_order_in_force": {}}
     for c in cases:
         kind = None
         we = re_ = None
@@ -804,8 +849,13 @@ def distribution(cases):
                 d["array_writes_by_type"][key] = d["array_writes_by_type"].get(key, 0) + 1
                 b = "0" if n == 0 else "1" if n == 1 else "2-9" if n < 10 else "10-49" if n < 50 else "50-99" if n < 100 else "100"
                 d["array_len_hist"][b] = d["array_len_hist"].get(b, 0) + 1
-            elif op in ("ws", "wb", "wz", "wc", "wca"):
+            elif op in ("ws", "wb", "wz", "wc", "wca", "wdsb"):
                 nvals += 1
+                if op == "wdsb":
+                    d["array_derived_object_writes"] += 1
+            elif op == "wd":
+                nvals += 1
+                d["array_derived_object_writes"] += 1
             elif op == "wcarr":
                 nvals += 1
                 d["c_array_writes_by_order"][we] = d["c_array_writes_by_order"].get(we, 0) + 1
@@ -930,6 +980,25 @@ def _reference(line):
             b = b"".join(unhex(x) for x in t[1:])     # an array of strings is the strings' bytes, whatever the byte order
             s["out"] += b
             return hexs(b)
+        if op in ("wd", "wdsb"):
+            if s["reading"]:
+                return "closed"
+            if s["kind"] == "sb":
+                return "na"
+            if op == "wdsb":
+                b = unhex(t[1])
+            else:
+                ty = t[2]
+                w = WIDTH[ty]
+                blob = unhex(t[3])
+                b = b""
+                for i in range(0, len(blob), w):
+                    v = int.from_bytes(blob[i:i + w], "big")
+                    if ty == "b":
+                        v = 1 if v else 0
+                    b += v.to_bytes(w, _order(s["we"]))      # a Stack/Queue is an array: its items, never the handle
+            s["out"] += b
+            return hexs(b)
         if op in ("wca", "wcarr"):
             if s["reading"]:
                 return "closed"
@@ -998,10 +1067,10 @@ def _reference(line):
                 v = 1 if v else 0
             s["rest"] = s["rest"][w:]
             return "%0*x" % (2 * w, v)
-        if op == "ra":
-            ty = t[1]
+        if op in ("ra", "rd"):
+            ty = t[1] if op == "ra" else t[2]
             w = WIDTH[ty]
-            n = int(t[2])
+            n = int(t[2] if op == "ra" else t[3])
             if s["kind"] == "sb":
                 return "na"
             if len(s["rest"]) < n * w:
@@ -1124,7 +1193,9 @@ LEVEL_NOTE = ("Trusted: Lean kernel, the regex translator + compiler probe, the 
               "storage), 8a61870 (Array<String> in native order wrote String object memory), e37681a (>> String trusted its length: out-of-bounds write), cdda882 "
               "(>> Array<T> read raw bytes over the Array object), 8331f50 (a zero-length Socket read marked the socket as failed), b125771 (Socket::readString cut the value at the first NUL; "
               "the earlier model had transcribed that truncation as behaviour, string_read_back carried a NUL-free hypothesis for Socket and the generator kept NULs out of "
-              "socket strings, which is why K did not see it), 7c56539 (char*, char[N] and T[N] taken by the generic operator<<: pointer value written, text/items reversed). The stream object's own "
+              "socket strings, which is why K did not see it), 7c56539 (char*, char[N] and T[N] taken by the generic operator<<: pointer value written, text/items reversed). e2ca1c4 (File/Socket << and >> of an object "
+              "derived from Array<T> — Stack, Queue, StreamBuffer — used the raw memory of the handle; ops wd / wdsb / rd; in the model such an object is the Array it is, so "
+              "array_canonical / array_get_put apply; that C++ overload resolution reaches the Array overload is K + translator shape check). The stream object's own "
               "view (Socket error(), available() = unread bytes) has no theorem: the model has no failure state for reads of bytes that are there; the harness "
               "checks error() after every socket operation and the `state` op compares available() with the model's unread byte count (K only). Known finding string-read-not-inverse: >> String expects an int32 length that << String does not write "
               "(library format decision; probe `rsame`, printed as KNOWN-FINDING; exactly that expectation is excluded from the generator, `rs` on arbitrary bytes is generated). "
